@@ -87,6 +87,14 @@ def note(x) -> None:
 
 def _eval_when(expr: str) -> bool:
     env = dict(_STATE.args)
+    if _STATE.symbolic:
+        from crosshair.tracers import ResumedTracing, is_tracing
+
+        if not is_tracing():
+            # check() was called from a concrete region: the predicate is over the (symbolic)
+            # harness arguments, so evaluate it with the tracer on (it forks the path).
+            with ResumedTracing():
+                return True if eval(expr, {"__builtins__": __builtins__}, env) else False  # noqa: S307
     return bool(eval(expr, {"__builtins__": __builtins__}, env))  # noqa: S307 (own file)
 
 
